@@ -33,6 +33,10 @@ Theorem C04_repo_schema_coherent : schema_coherent repo_schema repo_enums FUEL =
 Proof. vm_compute. reflexivity. Qed.
 Theorem C04_no_incoherent_field : incoherent_fields repo_schema repo_enums FUEL = [].
 Proof. vm_compute. reflexivity. Qed.
+(* stable: every map of the format iterates in key order, so the text does not depend on the process that
+   wrote it (a hash map has the same JSON shape but writes its keys in the hasher's order) *)
+Theorem C04_maps_ordered : repo_unordered_maps = [].
+Proof. reflexivity. Qed.
 
 (* non-vacuity: a space at its defaults serialises to its three required fields and loads back *)
 Definition ex_space : jv :=
